@@ -71,6 +71,27 @@ def check_pair(spec: dict) -> dict:
     want = ring.contains(a, b)
     if bool(got) != want:
         raise Violation("contains", {"got": got, "model": want})
+    # the same two questions asked through the other public forms: the location's own method and a feature
+    with code_under_test("contains_total"):
+        by_method = loc_a.contains(loc_b)
+    if bool(by_method) != want:
+        raise Violation("contains_method", {"got": by_method, "model": want})
+    from antismash.common.secmet.features import Feature
+    try:
+        feature_a, feature_b = Feature(loc_a, "misc_feature"), Feature(loc_b, "misc_feature")
+    except ValueError:      # a location no feature may have
+        feature_a = feature_b = None
+    if feature_a is not None:
+        with code_under_test("contains_total"):
+            by_feature = feature_b.is_contained_by(loc_a)
+            by_features = feature_b.is_contained_by(feature_a)
+        if bool(by_feature) != want or bool(by_features) != want:
+            raise Violation("contains_feature", {"got": [by_feature, by_features], "model": want})
+        with code_under_test("overlap_total"):
+            over = feature_a.overlaps_with(loc_b)
+            over_rev = feature_b.overlaps_with(feature_a)
+        if bool(over) != ring.overlap(a, b) or bool(over_rev) != ring.overlap(a, b):
+            raise Violation("overlap_feature", {"got": [over, over_rev], "model": ring.overlap(a, b)})
     spanning = gen.is_span(a) or gen.is_span(b)
     for wrap in ([None, length] if not spanning else [length]):
         with code_under_test("distance_total"):
